@@ -56,6 +56,13 @@ def isolated(env=None, cwd=None):
                     os.environ[k] = str(v)
         if cwd:
             os.chdir(cwd)
+        # no run ever reads the real clock: a frozen simulated clock is the default,
+        # runs that study time install their own SimClock on top
+        from fontTools.misc import timeTools
+        from .clock import SimClock
+
+        if not isinstance(timeTools.time, SimClock):
+            timeTools.time = SimClock(start=1_700_000_000.0, regime="frozen")
         yield
     finally:
         for m, a, v in saved:
